@@ -1276,6 +1276,22 @@ impl Prop for P {
             v.push(Plan::new(cell, q(9_000, 150_000), q(300, 6_000), case_strategy(max_len, false, tier)));
         }
         v.push(Plan::new("dict", q(30_000, 600_000), q(500, 10_000), case_strategy(q(1_200, 20_000), false, tier)));
+        // texts just above 2^16 bytes whose adjacent suffixes share more than 65 535 bytes (the
+        // quick tier's ordinary texts end at 2 000 bytes): LCP values, ranks and positions that
+        // need more than 16 bits, for the cells that keep LCP / BWT / packed arrays
+        let long_rep = || {
+            (
+                (proptest::sample::select(vec![Shape::Single, Shape::Periodic, Shape::Runs, Shape::Fib, Shape::ThueMorse, Shape::Rand1]), 65_530usize..=72_000, any::<u64>())
+                    .prop_map(|(shape, len, seed)| Text::Gen { shape, len, seed }),
+                any::<bool>(),
+                proptest::collection::vec(pat_strategy(), 1..=3),
+            )
+                .prop_map(|(text, term, pats)| Case { text: Some(text), term, algo: 0, par: false, par_low: false, small_alpha: true, thr: 2, knob: 0, pats, all_pats: false })
+                .boxed()
+        };
+        for cell in ["lcp_array", "enhanced_lcp", "enhanced_bwt", "compressor_dictionary", "compressor_large_text"] {
+            v.push(Plan::new(cell, q(8, 120), q(1, 8), long_rep()));
+        }
         v
     }
 
